@@ -1,11 +1,12 @@
 SPECIFICATION Spec
 CONSTANTS Depth = 1
  MaxOps = 2
- Pats <- PatsSmall
- Targs <- TargsSmall
+ Pats <- PatsTiny
+ Targs <- TargsTiny
  Insts <- InstsSmall
  CmpSet <- CmpSmall
- Kinds <- KindsAll
+ Cmp3Set <- Cmp3Tiny
+ Kinds <- KindsHist
  Record = TRUE
  EmitAll = TRUE
 INVARIANT StepsLawful
